@@ -12,6 +12,7 @@ import Mathlib.Tactic.LinearCombination
 import Mathlib.Tactic.NoncommRing
 
 open Lin Scalar
+set_option linter.unusedSimpArgs false
 
 namespace C03
 
@@ -90,6 +91,38 @@ theorem mat_ext_mulVec {n m : Nat} {A B : Mat ℝ n m} (h : ∀ v, mulVec A v = 
   ext i j
   have := congrArg (fun w : Vec ℝ n => w i) (h (.of (fun l => if l = j then 1 else 0)))
   simpa [mulVec_apply] using this
+
+
+/-! ### entry lemmas for the literal constructors (much faster than unfolding the `match`) -/
+section entries
+variable (a b c d e f g h k : ℝ)
+@[simp] theorem mat3_00 : (mat3 a b c d e f g h k) 0 0 = a := rfl
+@[simp] theorem mat3_01 : (mat3 a b c d e f g h k) 0 1 = b := rfl
+@[simp] theorem mat3_02 : (mat3 a b c d e f g h k) 0 2 = c := rfl
+@[simp] theorem mat3_10 : (mat3 a b c d e f g h k) 1 0 = d := rfl
+@[simp] theorem mat3_11 : (mat3 a b c d e f g h k) 1 1 = e := rfl
+@[simp] theorem mat3_12 : (mat3 a b c d e f g h k) 1 2 = f := rfl
+@[simp] theorem mat3_20 : (mat3 a b c d e f g h k) 2 0 = g := rfl
+@[simp] theorem mat3_21 : (mat3 a b c d e f g h k) 2 1 = h := rfl
+@[simp] theorem mat3_22 : (mat3 a b c d e f g h k) 2 2 = k := rfl
+@[simp] theorem mat2_00 : (mat2 a b c d) 0 0 = a := rfl
+@[simp] theorem mat2_01 : (mat2 a b c d) 0 1 = b := rfl
+@[simp] theorem mat2_10 : (mat2 a b c d) 1 0 = c := rfl
+@[simp] theorem mat2_11 : (mat2 a b c d) 1 1 = d := rfl
+@[simp] theorem mk1_0 : (mk1 a) 0 = a := rfl
+@[simp] theorem mk2_0 : (mk2 a b) 0 = a := rfl
+@[simp] theorem mk2_1 : (mk2 a b) 1 = b := rfl
+@[simp] theorem mk3_0 : (mk3 a b c) 0 = a := rfl
+@[simp] theorem mk3_1 : (mk3 a b c) 1 = b := rfl
+@[simp] theorem mk3_2 : (mk3 a b c) 2 = c := rfl
+@[simp] theorem mk4_0 : (mk4 a b c d) 0 = a := rfl
+@[simp] theorem mk4_1 : (mk4 a b c d) 1 = b := rfl
+@[simp] theorem mk4_2 : (mk4 a b c d) 2 = c := rfl
+@[simp] theorem mk4_3 : (mk4 a b c d) 3 = d := rfl
+end entries
+
+@[simp] theorem memoM_eq' {n m : Nat} (f : Mat ℝ n m) : memoM f = f := memoM_eq f
+@[simp] theorem memoV_eq' {n : Nat} (f : Vec ℝ n) : memoV f = f := memoV_eq f
 
 /-! ### block-diagonal algebra (`Bundle.bdiag`, `fst`, `snd`, `tl`, `br`, `vcat`) -/
 
